@@ -1049,6 +1049,11 @@ class Exec:
                     q2.heap[cur.ref].items.extend(q2.heap[rhs.ref].items)
                     yield q2, NORMAL
                     continue
+                if isinstance(cur, VRef) and isinstance(s.op, ast.BitOr) and isinstance(rhs, VRef) \
+                        and isinstance(q2.heap[cur.ref], HSet) and isinstance(q2.heap[rhs.ref], HSet):
+                    q2.heap[cur.ref].items.extend(q2.heap[rhs.ref].items)      # concrete sets: in-place union
+                    yield q2, NORMAL
+                    continue
                 if isinstance(cur, VRef) and isinstance(s.op, ast.BitOr) and isinstance(rhs, VRef):
                     from .absseq import HAbsSet, set_union_inplace
                     if isinstance(q2.heap[cur.ref], HAbsSet):
